@@ -42,6 +42,7 @@ def check(ctx):
     if knA + knB:
         R.run_jobs(knA + knB, 'recorded-findings (index-array back-end, non-range parameters)', stop_on_violation=False)
     ctx.notes += R.notes
+    R.cleanup()
     return ctx.finish(RULE, ['task bodies and runtime actions atomic at the task level', 'single process, shared memory',
                              'AGAIN returned before the body touches data'])
 
